@@ -25,6 +25,9 @@ func TestWriteFindings(t *testing.T) {
 		c.Note = note
 		harness.WriteCase(filepath.Join(dir, name+".json"), c)
 	}
+	// R11: second witness (a wrong value rather than a panic on the pinned tree)
+	write("FX-R11b", "C09", "C09/strings", "<a/>", 0, call("substring", lit("12345"), num("3"), num("10")), "substring('12345', 3, 10) must be '345'")
+	write("FX-R11c", "C09", "C09/strings", "<a/>", 0, call("substring", lit(" "), num("0"), num("3")), "substring(' ', 0, 3) must be ' '")
 	// KF-A: node-set -> string takes the first node the engine yields (nearest on a reverse axis), not the first in document order
 	write("KF-A", "C02", "C02/predicates", "<r><a>{1}</a><a>{2}</a><b/></r>", 0,
 		abs(ds, step("child", "name", "b", call("contains", rel(step("preceding-sibling", "name", "a")), lit("1")))),
